@@ -1,4 +1,6 @@
 mod c12x;
+mod c14;
+mod c17;
 mod canon;
 mod dbwalk;
 mod domops;
@@ -90,6 +92,9 @@ fn main() {
         "c02" => rt::main(&a, gen_dom::Fmt::Xml),
         "domops" => domops::main(&a),
         "sstr" => sstr::main(&a),
+        "c17" => c17::main(&a),
+        "c14" => c14::main(&a),
+        "c14read" => c14::read_main(&a),
         "c12read" => c12x::read_main(&a),
         "uidnow" => c12x::now_main(&a),
         "foreigngen" => foreign::gen_main(&a),
